@@ -57,7 +57,15 @@ var places = map[string][2]float64{ // lat, lng
 	"sydney":       {-33.87, 151.21},
 	"origin":       {0.0002, -0.0003},
 	"arctic":       {84.5, 20.25},
-	"antimeridian": {-17.8, 179.9},
+	"antimeridian": {-17.8, 179.9995}, // rings of the first feature straddle the antimeridian (longitudes wrap to -180..)
+}
+
+// wrapLng brings a longitude beyond +180 back into the range, as GeoJSON writes coordinates across the antimeridian.
+func wrapLng(lng float64) float64 {
+	if lng > 180 {
+		return lng - 360
+	}
+	return lng
 }
 
 var floatClasses = [][2]float64{ // lat, lng pairs for the marshal half only
@@ -117,7 +125,7 @@ func (p placer) ringVertex(fi, pi, ri, v, n int) geojson.Coordinate {
 		theta = -theta
 	}
 	j := float64(hash3(int64(fi), int64(pi), int64(ri), int64(v), p.c.Seed)) * 1e-9
-	return geojson.Coordinate{Lat: clat + r*math.Sin(theta) + j, Lng: clng + r*math.Cos(theta) - j}
+	return geojson.Coordinate{Lat: clat + r*math.Sin(theta) + j, Lng: wrapLng(clng + r*math.Cos(theta) - j)}
 }
 
 // vertex v of line/multipoint part pi of feature fi
@@ -130,7 +138,7 @@ func (p placer) lineVertex(fi, pi, v int) geojson.Coordinate {
 	j := float64(hash3(int64(fi), int64(pi), 99, int64(v), p.c.Seed)) * 1e-9
 	return geojson.Coordinate{
 		Lat: base[0] + float64(fi)*0.01 + float64(pi)*0.002 + float64(v%2)*0.0004 + j,
-		Lng: base[1] + float64(fi)*0.01 + float64(v)*0.0005 - j,
+		Lng: wrapLng(base[1] + float64(fi)*0.01 + float64(v)*0.0005 - j),
 	}
 }
 
